@@ -261,6 +261,8 @@ def _alg_pre(nm, v, form, pos, n, o1, o2, o3):
         return False
     if len(v) > R.N(2) or not R.scell(v) or len(nm) != 2:
         return False
+    if len(v) > 1 and not _env_is("VP_WHICH", _VALUE_DEFS[0]):
+        return False                     # two-character values: the first value definition only (cell layout)
     if pos != 1 and len(v) > R.env_int("VP_NV3", 0):
         return False                     # the long values go with the annotation 'G, (U, B)'
     if not R.ascii_printable(nm) or not R.ascii_printable(v) or not _no_delims(v):
@@ -501,8 +503,28 @@ def _acc_cells_quick():
     return out
 
 
-def _acc_cells(n):
-    return R.product_cells(R.int_cells("VP_SFX", 0, 1), R.str_cells(n, split1_from=2, split2_from=3, minlen=1))
+_NODELIM_CLASSES = (3, 4, 5)      # R.DELIMS classes left when ',()' are excluded: ' ', '/', everything else
+
+
+def _acc_cells_thorough():
+    """(a) every printable-ASCII name of length 1..2;  (b) length 3 without ',()' (split by the class of the first
+    character and by body range)"""
+    out = [dict(c, VP_N=2, VP_NODELIM=0) for c in
+           R.product_cells(R.int_cells("VP_SFX", 0, 1), R.str_cells(2, split1_from=2, minlen=1))]
+    for sfx in (0, 1):
+        for c0 in _NODELIM_CLASSES:
+            for lo in (0, 4, 8):
+                out.append({"VP_SFX": sfx, "VP_LEN": 3, "VP_C0": c0, "VP_SHAPE_LO": lo, "VP_SHAPE_HI": lo + 3,
+                            "VP_N": 3, "VP_NODELIM": 1})
+    return out
+
+
+def _dup_cells_thorough():
+    out = [{"VP_K": k, "VP_VIA": via, "VP_N": 2, "VP_NODELIM": 0} for k in (0, 1) for via in (0, 1, 2)]
+    for via in (0, 1, 2):
+        for c0 in _NODELIM_CLASSES:
+            out.append({"VP_K": 0, "VP_VIA": via, "VP_LEN": 3, "VP_C0": c0, "VP_N": 3, "VP_NODELIM": 1})
+    return out
 
 
 def _alg_cells_quick(ndefs):
@@ -518,17 +540,18 @@ def _alg_cells_quick(ndefs):
 
 
 def _alg_cells_thorough():
-    """disjoint cover of: 5 definitions x form x v (value definitions: len <= 2, others: len <= 1) x ops"""
+    """disjoint cover of: 5 definitions x form x v (cd: len <= 2, others: len <= 1) x ops"""
     out = []
     for w in range(len(_REF_DEFS)):
         if w in _VALUE_DEFS:
             for g in _NGROUPS:
                 out.append(dict(g, VP_WHICH=w, VP_FORM=0, VP_LEN=0))
                 out.append(dict(g, VP_WHICH=w, VP_FORM=0, VP_LEN=1))
-                for c0 in range(len(R.DELIMS) + 1):
-                    out.append(dict(g, VP_WHICH=w, VP_FORM=0, VP_LEN=2, VP_C0=c0))
                 out.append(dict(g, VP_WHICH=w, VP_FORM=1, VP_LEN=1))       # a written group needs a value
-                out.append(dict(g, VP_WHICH=w, VP_FORM=1, VP_LEN=2))
+                if w == _VALUE_DEFS[0]:                                    # two-character values: cd only
+                    for c0 in range(len(R.DELIMS) + 1):
+                        out.append(dict(g, VP_WHICH=w, VP_FORM=0, VP_LEN=2, VP_C0=c0))
+                    out.append(dict(g, VP_WHICH=w, VP_FORM=1, VP_LEN=2))
         else:
             out += [dict(g, VP_WHICH=w, VP_FORM=0) for g in _NGROUPS]
             out.append({"VP_WHICH": w, "VP_FORM": 1})
@@ -560,7 +583,8 @@ def _dx_cells_thorough():
 
 
 _NAME_Q = ("every printable-ASCII name with 1 <= len(name) <= 2 that holds none of ',()' and does not start '#/'")
-_NAME_T = "every printable-ASCII name with 1 <= len(name) <= 3 that does not start '#/'"
+_NAME_T = ("every printable-ASCII name with 1 <= len(name) <= 2, and every one with len(name) = 3 that holds "
+           "none of ',()' (none starting '#/')")
 
 HARNESSES = [
     R.H("def_accept", _T_ACC,
@@ -568,7 +592,7 @@ HARNESSES = [
                      bound="'(Definition/' + name + ['/#'] + body + ')' for " + _NAME_Q + ", both suffix choices, "
                            "12 fixed bodies (no / plain / nested content, '#' on a value tag, on a plain tag, on "
                            "two tags, twice on one tag, inner Def / Def-expand / Definition, two groups, extra tag)"),
-        thorough=R.tier(cells=_acc_cells(3), env={"VP_N": 3}, timeout=900, path_timeout=60,
+        thorough=R.tier(cells=_acc_cells_thorough(), env={}, timeout=900, path_timeout=60,
                         bound="the same for " + _NAME_T),
         what="DefinitionDict.check_for_definitions stores exactly the definitions the reference accepts (D1-D5): "
              "key = lower-cased label, entry name / takes_value / content (up to sibling order) as written; "
@@ -582,12 +606,10 @@ HARNESSES = [
                      bound="dictionary holding 'aB'; second definition '(Definition/' + n2 + '/#, (C/#))' for "
                            "n2 = " + _NAME_Q + "; added by a second check_for_definitions call or by merging two "
                            "dictionaries"),
-        thorough=R.tier(cells=R.product_cells([{"VP_K": 0}], R.int_cells("VP_VIA", 0, 2),
-                                              R.str_cells(3, split1_from=3, minlen=1))
-                        + [{"VP_K": 1, "VP_VIA": v, "VP_LEN": 1} for v in (0, 1, 2)],
-                        env={"VP_N": 3}, timeout=900, path_timeout=60,
-                        bound="dictionary holding 'aB': n2 = " + _NAME_T + "; holding 'Q': every one-character n2; "
-                              "added by a second call, inside the same string, or by merging two dictionaries"),
+        thorough=R.tier(cells=_dup_cells_thorough(), env={}, timeout=900, path_timeout=60,
+                        bound="dictionary holding 'aB' or 'Q': every printable-ASCII n2 with 1 <= len(n2) <= 2; "
+                              "holding 'aB': also len(n2) = 3 without ',()'; added by a second call, inside the "
+                              "same string, or by merging two dictionaries"),
         what="a second definition whose label equals an accepted one case-insensitively is reported exactly once "
              "and ignored (the first entry stays untouched); any other acceptable one is added silently",
         oracle="models/defs_ref.py accept_all() (D6)", stubs=_STUBS + _STUB_DICT, outside=_OUT),
@@ -601,8 +623,8 @@ HARNESSES = [
         thorough=R.tier(cells=_alg_cells_thorough(),
                         env={"VP_N": 2, "VP_M": 3, "VP_POSSET": 2, "VP_NV": 1}, timeout=900, path_timeout=60,
                         bound="'G, (U, B)' for all five definitions, every printable-ASCII v with len(v) <= 2 "
-                              "(value definitions) / <= 1 (others); plus U at top level, at depth 2 and next to "
-                              "two other uses with v = ''; every sequence of <= 3 operations"),
+                              "(cd) / <= 1 (others); plus U at top level, at depth 2 and next to two other uses "
+                              "with v = ''; every sequence of <= 3 operations"),
         what="after every operation str() terminates and equals the reference rendering (every use expanded after "
              "expand_defs, every use in label form after shrink_defs, unchanged by copy; expansion = "
              "(Def-expand/<label>[/<v>], content with '#' replaced by v)); hence expand.expand = expand and "
